@@ -1,3 +1,4 @@
+import MdVerif.Proofs.FileSysLemmas
 import MdVerif.Model.Writer
 import MdVerif.Generated.Tables
 /-!
@@ -57,3 +58,86 @@ theorem c20_read_pure (fs : FS β) (read : FS β → γ) : (fun f => (f, read f)
 example : (saveMany [(⟨none⟩ : FS Nat), ⟨some 7⟩, ⟨none⟩] false [1, 2, 3]) = ([⟨some 1⟩, ⟨some 7⟩, ⟨none⟩], true) := by decide
 
 end MdVerif.Writer
+
+/-! ## a directory of files: frame condition, numbered files, truncation (Model/FileSys.lean) -/
+namespace MdVerif.FileSys
+variable {β : Type}
+
+/-- **no clobber**: with `force_overwrite=False` an existing path is refused and the whole directory is left as it was -/
+theorem c20_fs_no_clobber (d : Dir β) (p : String) (c old : β) (h : lookup d p = some old) :
+    openWrite p false d c = (d, true) := by
+  simp [openWrite, openWriteAt, h]
+
+/-- **fully replaced**: with `force_overwrite=True` the path holds exactly the new content -/
+theorem c20_fs_replaces (d : Dir β) (p : String) (c : β) :
+    lookup (openWrite p true d c).1 p = some c ∧ (openWrite p true d c).2 = false := by
+  simp [openWrite, openWriteAt, lookup_put_same]
+
+/-- **frame condition**: no other path is touched, whatever the outcome -/
+theorem c20_fs_frame (d : Dir β) (p q : String) (force : Bool) (c : β) (hq : q ≠ p) :
+    lookup (openWrite p force d c).1 q = lookup d q := by
+  unfold openWrite openWriteAt
+  split
+  · rfl
+  · exact lookup_put_other d p q c hq
+
+/-- a fresh path is created whatever the flag -/
+theorem c20_fs_fresh (d : Dir β) (p : String) (force : Bool) (c : β) (h : lookup d p = none) :
+    lookup (openWrite p force d c).1 p = some c ∧ (openWrite p force d c).2 = false := by
+  simp [openWrite, openWriteAt, h, lookup_put_same]
+
+/-- numbered files: nothing but the listed paths can change, and with `force_overwrite=False` an existing one among them is never changed -/
+theorem c20_fs_many_frame (force : Bool) (d : Dir β) (ws : List (String × β)) (q : String) (hq : ∀ w ∈ ws, w.1 ≠ q) :
+    lookup (saveMany force d ws).1 q = lookup d q := by
+  induction ws generalizing d with
+  | nil => rfl
+  | cons w ws ih =>
+    obtain ⟨p, c⟩ := w
+    have hp : q ≠ p := fun e => hq (p, c) (by simp) e.symm
+    simp only [saveMany]
+    have hf := c20_fs_frame d p q force c hp
+    cases ho : openWrite p force d c with
+    | mk d' err =>
+      rw [ho] at hf
+      cases err with
+      | true => simpa using hf
+      | false =>
+        simp only
+        rw [ih d' (fun w hw => hq w (by simp [hw]))]
+        exact hf
+
+theorem c20_fs_many_no_clobber (d : Dir β) (ws : List (String × β)) (q : String) (old : β) (h : lookup d q = some old) :
+    lookup (saveMany false d ws).1 q = some old := by
+  induction ws generalizing d with
+  | nil => exact h
+  | cons w ws ih =>
+    obtain ⟨p, c⟩ := w
+    simp only [saveMany]
+    by_cases hpq : p = q
+    · subst hpq
+      rw [c20_fs_no_clobber d p c old h]
+      exact h
+    · have hf := c20_fs_frame d p q false c (fun e => hpq e.symm)
+      cases ho : openWrite p false d c with
+      | mk d' err =>
+        rw [ho] at hf
+        cases err with
+        | true => simp only; rw [hf]; exact h
+        | false => simp only; exact ih d' (by rw [hf]; exact h)
+
+/-- **why the open must truncate**: written over a longer file without truncation, the old tail stays (seeded change C20-rst7-opened-without-truncation) -/
+theorem c20_overlay_keeps_tail (old new : List Nat) (h : new.length < old.length) : overlay old new ≠ new := by
+  intro e
+  have : (overlay old new).length = new.length := by rw [e]
+  simp only [overlay, List.length_append, List.length_drop] at this
+  omega
+
+theorem c20_overlay_short (old new : List Nat) (h : old.length ≤ new.length) : overlay old new = new := by
+  simp [overlay, List.drop_eq_nil_of_le h]
+
+/-- **why the test must name the path that is opened**: checked under another spelling, an existing file is replaced although overwriting was
+not requested (seeded change C20-zipped-exists-test-on-lowercased-path) -/
+theorem c20_check_other_path_witness :
+    (openWriteAt "exist_a.xyz" "Exist_A.xyz" false [("Exist_A.xyz", 1)] 2) = ([("Exist_A.xyz", 2)], false) := by decide
+
+end MdVerif.FileSys
